@@ -114,9 +114,27 @@ class SInt:
         return lo - SInt.of(s) * (1 << (len(bits) - 1))
 
     def norm(self):
-        """-> python int when constant"""
+        """-> python int when constant; a sum of non-overlapping shifted bit-vectors (byte packing: hi*256 + lo, int.from_bytes ...)
+        becomes ONE atom holding the concatenated bits, so packing and unpacking are syntactic inverses"""
         if not self.terms:
             return self.const
+        if len(self.terms) > 1 and self.const == 0:
+            parts = []
+            for c, a in self.terms.values():
+                if c <= 0 or c & (c - 1):
+                    return self
+                parts.append((c.bit_length() - 1, a))
+            parts.sort(key=lambda p: p[0])
+            bits = []
+            for sh, a in parts:
+                if sh < len(bits):
+                    return self
+                bits.extend([0] * (sh - len(bits)))
+                bits.extend(a.bits)
+            if len(bits) > 4096:
+                return self
+            at = Atom.get(bits)
+            return SInt({at.key: (1, at)}, 0)
         return self
 
     # ------------------------------------------------------------------ interval & blasting
